@@ -430,6 +430,23 @@ const PROBES: &[(&str, &str)] = &[
         "def Box : VType = data | +Box : Int64 * Int64 end that\n\
          let b = (+Box(4, 5) : Box) in match b | +Box(x, y) => ! (process/exit) y end",
     ),
+    // structural data / codata types equal up to the order of their arms: tags are positions
+    (
+        "structural-data-permuted-arms",
+        "let P = data | +A : Unit | +B : Unit end that\n\
+         let R = data | +B : Unit | +A : Unit end that\n\
+         let v : P = +A() that\n\
+         let show = { fn (r : R) => match r | +A() => ! (process/exit) 0 | +B() => ! (process/exit) 1 end } that\n\
+         ! show v",
+    ),
+    (
+        "structural-codata-permuted-arms",
+        "let P = codata | .a : Ret Int64 | .b : Ret Int64 end that\n\
+         let R = codata | .b : Ret Int64 | .a : Ret Int64 end that\n\
+         let o : Thk P = { comatch | .a => ret 0 | .b => ret 1 end } that\n\
+         let show = { fn (r : Thk R) => do x <- ! r .a; ! (process/exit) x } that\n\
+         ! show o",
+    ),
     // host operations with callbacks, argument fold, standard input
     (
         "arg-fold-and-stdin",
